@@ -42,7 +42,7 @@
 (***************************************************************************)
 EXTENDS Integers, Sequences, SequencesExt, TLC
 
-AR == INSTANCE Arith WITH MaxI <- 2147483647, TsDivIsFloor <- TRUE, op <- "PLUS", a <- 0, b <- 0
+AR == INSTANCE Arith WITH MaxI <- 2147483647, TsDivIsFloor <- TRUE, CmpShiftChecked <- TRUE, op <- "PLUS", a <- 0, b <- 0
 MinInt == -2147483647 - 1
 
 CONSTANT MaxDepth        \* deepest chain of calls followed (beyond: impl("depth"))
